@@ -322,7 +322,7 @@ def run(ctx):
         def ren(t):
             def r(m):
                 return names.setdefault(m.group(0), "NEW%d" % (len(names) + 1))
-            return re.sub(r'__ckd_calloc__\(1, \d+, "[^"]*", \d+\)', r, t)
+            return symx.plain(re.sub(r'__ckd_calloc__\(1, \d+, "[^"]*", \d+\)(#\d+)?', r, t))
         return [(ren(pth), ren(_lin.p_str(v_))) for (pth, v_, n_) in pt.stores], (ren(_lin.p_str(pt.ret)) if pt.ret is not None else None)
     bad4 = {}
     seenp = set()
